@@ -11,6 +11,9 @@ from vlib.core import q, qmat, qvec, nat, coqbool, coqlist
 
 IMPORTS = ("From Coq Require Import List QArith.\nFrom RV Require Import base.Num model.Metrics run.RunC19.\n"
            "Import ListNotations.\nOpen Scope Q_scope.")
+IMPORTS_GEN = ("From Coq Require Import List QArith.\nFrom RV Require Import base.Num model.Metrics run.RunC19 run.RunGenC19.\n"
+               "Import ListNotations.\nOpen Scope Q_scope.")
+GEN_RENAMES = {"chk_%s " % n: "chk_gen_%s " % n for n in ("mse", "rmse", "nrmse", "nrmse_nv", "rsquare", "effmat")}
 TRUSTED = [
     "numpy elementwise arithmetic, np.mean/np.sum/np.ptp/ndarray.var/np.quantile: not assumed - compared with the model on every run",
     "np.sqrt: the model has no square root; rmse/nrmse are tied through their squares and their sign (theorems use Coq's Reals sqrt)",
@@ -18,6 +21,10 @@ TRUSTED = [
     "are NOT modelled in Coq; 'sparse = dense = largest eigenvalue modulus' is decided only by the implementation oracle "
     "(tolerance 1e-6, structured matrices with exactly known spectral radius)",
     "effective_spectral_radius: the matrix it hands to spectral_radius is captured by wrapping observables.spectral_radius and compared with the model",
+    "tie (T): tools/vlib/py2coq_nd.py (fail-closed partial evaluator of observables.py over rank and dimensionwise) and coq/base/NDPrelude.v "
+    "(the meaning given to np.mean/np.sum/.var/np.ptp/np.quantile with axis in {None, 0, (0,1)}: the 1-D reduction of every lane; "
+    "ndarray.shape; element-wise arithmetic with scalar / trailing-vector broadcasting) are trusted as the reading of the source; the "
+    "generated definitions are proved equal to model/Metrics.v (proofs/Gen_metrics_eq.v) and additionally executed at Q on every run",
 ]
 ASSUMPTIONS = [
     "arrays are rectangular nested lists of small dyadic rationals (depth 1-3, at least one element); float64 results accurate to 1e-9 relative",
@@ -407,6 +414,13 @@ def nontrivial(c, o):
     return len(set(c["v"])) >= 2
 
 
+def pregen(ctx):
+    """tie (T): re-translate reservoirpy/observables.py (_check_arrays, mse, rmse, nrmse, rsquare, effective_spectral_radius) of the
+    tree under test into coq/gen/Gen_metrics.v; returns an error text when the translator rejects the source"""
+    from vlib import py2coq_nd
+    return py2coq_nd.pregen()
+
+
 def correspondence(ctx):
     rng = ctx.rng("corr")
     cases = gen_cases(rng, ctx.n(400, 4000))
@@ -427,7 +441,16 @@ def correspondence(ctx):
         if nontrivial(c, o):
             nt.add(repr(jsonable(c)))
     failing, err = core.run_cases(ctx.pid, IMPORTS, terms)
-    return {"evaluations": len(cases), "distinct_nontrivial": len(nt),
+    # tie (T), dynamic side: the definitions GENERATED from the current source (coq/gen/Gen_metrics.v) executed at Q on the same
+    # scenarios against the same observations (run/RunGenC19.v; separate runner: a rejected translation only fails this part)
+    from vlib import gen
+    gfail, gerr, gn = gen.rerun_generated(ctx.pid, IMPORTS_GEN, terms, GEN_RENAMES)
+    dist["generated-definition runs"] = gn
+    dist["generated-definition disagreements"] = len(gfail)
+    if gerr:
+        err = (err or "") + "generated metrics: " + gerr
+    failing = sorted(set(failing) | set(gfail))
+    return {"evaluations": len(cases) + gn, "distinct_nontrivial": len(nt),
             "rule": "seeded pairs of 1-D/2-D/3-D dyadic arrays (with ties, constant targets, perfect predictions; given as ndarrays in 5 memory "
                     "layouts, lists/tuples of 2-D arrays, nested lists; float, integer and boolean dtypes) through mse/rmse/nrmse"
                     "(4 norms + norm_value)/rsquare with dimensionwise on/off, shape-mismatched pairs (incl. broadcastable ones and lists of sequences with equal total length but another partition), the matrix "
@@ -665,7 +688,7 @@ def _judge_laws_body(O, c, y, p):
 # ---- spectral radius
 def gen_sr_case(rng, i):
     fam = ["random", "sparse", "ring", "nilpotent", "diagonal", "rotation", "rowsum", "perron", "triangular", "zerosum",
-           "tiny", "jordan", "lowtri"][i % 13]
+           "tiny", "jordan", "lowtri", "blockzerosum"][i % 14]
     n = rng.randint(3, 10)
     Z = Fraction(0)
     if fam == "random":
@@ -725,6 +748,20 @@ def gen_sr_case(rng, i):
         n = rng.choice([10, 14, 25, 50])
         W = [[core.dyadic(rng, 8, 2) if (j < i2 and rng.random() < 0.3) else Z for j in range(n)] for i2 in range(n)]
         rho = Z
+    elif fam == "blockzerosum":
+        # block-diagonal: a DOMINANT circulant block c (I - P) whose rows sum to 0 (eigenvalues c (1 - w^k), radius c sqrt(3) for 3x3)
+        # next to a small positive block: a structured ARPACK start vector (ones) has no component along the dominant eigenvectors
+        cst = Fraction(rng.randint(2, 4))
+        m = rng.randint(20, 30)             # below ~20 rows ARPACK's Krylov space is the whole space and rounding noise finds the block
+        n = 3 + m
+        W = [[Z] * n for _ in range(n)]
+        for k in range(3):
+            W[k][k] = cst
+            W[k][(k + 1) % 3] = -cst
+        for i2 in range(3, n):
+            for j in range(3, n):
+                W[i2][j] = Fraction(rng.randint(1, 8), 64)
+        rho = None
     elif fam == "zerosum":
         # every row sums to 0 (e.g. a graph Laplacian): the vector of ones is in the kernel
         W = [[core.dyadic(rng, 8, 2) if rng.random() < 0.6 else Z for _ in range(n)] for _ in range(n)]
@@ -739,7 +776,7 @@ def gen_sr_case(rng, i):
         rho = max(abs(Fraction(x, 4)) for x in d)
     lr = rng.choice([Fraction(1), Fraction(1, 2), Fraction(1, 4), Fraction(3, 4), Fraction(1, 8)])
     return {"kind": "sr", "family": fam, "W": W, "rho": rho if not isinstance(rho, tuple) else ["sqrt", rho[1]], "lr": lr,
-            "layout": LAYOUTS[(i // 13) % len(LAYOUTS)]}
+            "layout": LAYOUTS[(i // 14) % len(LAYOUTS)]}
 
 
 def _judge_sr(c, tol=1e-6, zero=1e-3):
@@ -798,6 +835,10 @@ def _judge_sr(c, tol=1e-6, zero=1e-3):
         if not same(got[st], got["dense"]) and nilpotent:
             return _viol("sr:sparse-nilpotent-misestimated", "spectral_radius of a sparse (%s) strictly triangular, hence nilpotent, %dx%d "
                          "matrix is %r through ARPACK; the dense path (and the exact value) is 0" % (st, n_, n_, got[st]), c, got["dense"], got)
+        if not same(got[st], got["dense"]) and c["family"] == "blockzerosum":
+            return _viol("sr:sparse:start-vector-blind-spot", "spectral_radius of a %s block-diagonal matrix whose dominant block has zero row sums is %r; "
+                         "the dense path gives %r (ARPACK started from a structured vector never leaves the other block)" % (st, got[st], got["dense"]),
+                         c, got["dense"], got)
         if not same(got[st], got["dense"]):
             return _viol("sr:sparse-vs-dense", "spectral_radius of the %s matrix differs from that of the same dense matrix (%s)"
                          % (st, c["family"]), c, got["dense"], got)
